@@ -909,6 +909,26 @@ func history(r *gen.R, t *gen.Trace, budget, maxMut int, canned bool) {
 					vd := verifyReal(m.ops, m.root, n, m.key, mval, mabs)
 					t.Line("mut:"+kind, vd == "accept", "verify %s %s %s %s %s %s %s => %s", m.label, mkind, hx(m.root), hx([]byte(n)), hx(m.key), gen.Hex(mval), serOps(m.ops), vd)
 				}
+				// the valid proof re-used for another key: the key is replaced in the statement and in the
+				// operator (ProofOp.Key is not covered by any hash), for every stored key and for absent
+				// keys at all positions; value proofs also with the other key's stored value
+				for _, k2 := range probes {
+					if bytes.Equal(k2, k) {
+						continue
+					}
+					c := cpOps(q.ops)
+					c[0].key = cpb(k2)
+					vals := [][]byte{q.value}
+					if !absence {
+						if v2, ok := w.hist[v][n][string(k2)]; ok && !bytes.Equal(v2, q.value) {
+							vals = append(vals, v2)
+						}
+					}
+					for _, v2 := range vals {
+						vd := verifyReal(c, root, n, k2, v2, absence)
+						t.Line("altkey:"+kind, vd == "accept", "verify altered-key %s %s %s %s %s %s => %s", kind, hx(root), hx([]byte(n)), hx(k2), gen.Hex(v2), serOps(c), vd)
+					}
+				}
 			}
 			// structured forgeries: several fields changed together by somebody who knows the verifier
 			for _, f := range w.forgeries(n, v, crafted) {
